@@ -58,7 +58,9 @@ index counted from the end by a variable; also when the index goes through a loc
 the callers as an unreduced difference of table data and handed in); an index that is an ENTRY of an integer table handed in by the callers (nothing
 subtracted in the kernel) is decided with the callers: HOLDS when every library call (through forwarding wrappers) passes
 values that are non-negative by construction (`% n`, abs, arange, sums of such), UNDECIDED otherwise.
-K2: no loop counter read after its loop (a loop with `break`: UNDECIDED).
+K2: no loop counter read after its loop (a loop with `break`: VIOLATED in the pyccel sources when the loop can run to its end after at
+    least one sweep - stop chosen by the caller or a positive literal, every `break` waiting for an inequality against a float argument on
+    which nothing else in the loop depends (`_exhaustion_reachable`, dependence closure `_dependants`) - otherwise UNDECIDED).
 K3: no array argument of a pyccel kernel is re-bound as a whole (`X = E`): Python binds a new local array, compiled code assigns in
 place into the caller's array.
 Numerical equality of compiled and interpreted results is inherently dynamic: not decided.
@@ -4107,14 +4109,21 @@ def reference_inputs(chk):
             # AUDIT: true when the annotation really is Final[<array>] and lints.shared_state_mutations reports a store that reaches
             # the parameter's own array (direct store, in-place operator, view / alias of it, out= / overwrite flag); a copy
             # (`.copy()`, arithmetic result) is a new array and is not followed (engine: pgverif/lints.py)
-            muts = list(lints.shared_state_mutations(fn, lambda s_, final=final: s_ in final))
+            found_ = lints.shared_state_mutations(fn, lambda s_, final=final: s_ in final)
+            muts = list(found_)
+            und_ = list(getattr(found_, "undecided", []) or [])
+            for node, desc, reason in und_:
+                # a possible write the engine could not establish (kind of the receiver / view-or-copy of the alias unknown): no verdict
+                chk.ob("V5-inputs-not-written", node, f"{ref}:{q}: {src(node)[:70]}", None,
+                       f"a write may reach an array declared Final ({desc}) but this is not established: {reason}", file=ref, func=q)
             for node, desc in muts:
                 chk.ob("V5-inputs-not-written", node, f"{ref}:{q}: {src(node)[:70]}", False,
                        desc.replace("the stored", "the caller's read-only input") + f" - `{q}` declares {sorted(final)} Final: the interpreted "
                        "kernel changes the caller's array (every later call sees other data), which the declaration promises the compiled "
                        "kernel never does", file=ref, func=q)
-            chk.ob("V5-inputs-not-written", fn, f"{ref}:{q} leaves {sorted(final)} unchanged", not muts,
-                   "no store, in-place update or overwrite flag reaches an array declared Final, directly or through a view" if not muts else
+            chk.ob("V5-inputs-not-written", fn, f"{ref}:{q} leaves {sorted(final)} unchanged", (None if und_ else True) if not muts else False,
+                   (f"{len(und_)} possible write(s) to an array declared Final are not decided (listed separately)" if und_ else
+                    "no store, in-place update or overwrite flag reaches an array declared Final, directly or through a view") if not muts else
                    f"{len(muts)} write(s) reach an array declared Final (listed separately)", file=ref, func=q, nontrivial=False)
 
 
@@ -4199,14 +4208,17 @@ def variant_agreement(chk):
                 if final:
                     from .. import lints
                     # follow the read-only arrays into helpers that exist only in the copy
-                    work, seen_h, muts = [(vf, q, frozenset(final))], set(), []
+                    work, seen_h, muts, und_v = [(vf, q, frozenset(final))], set(), [], []
                     while work:
                         hf, hq, hfinal = work.pop()
                         if (hq, hfinal) in seen_h:
                             continue
                         seen_h.add((hq, hfinal))
-                        for node, desc in lints.shared_state_mutations(hf, lambda s_, hfinal=hfinal: s_ in hfinal):
+                        found_ = lints.shared_state_mutations(hf, lambda s_, hfinal=hfinal: s_ in hfinal)
+                        for node, desc in found_:
                             muts.append((hq, node, desc))
+                        for node, desc, reason in (getattr(found_, "undecided", []) or []):
+                            und_v.append((hq, node, desc, reason))
                         for c in ast.walk(hf):
                             if isinstance(c, ast.Call) and isinstance(c.func, ast.Name) and vm.has(c.func.id) and not rm.has(c.func.id):
                                 cf = vm.func(c.func.id)
@@ -4220,8 +4232,13 @@ def variant_agreement(chk):
                                desc.replace("the stored", "the caller's read-only input") + f" - the reference kernel `{q}` declares "
                                f"{sorted(final)} Final (never written); this copy changes the caller's array, so later calls give other "
                                "results than the reference", file=v, func=hq)
-                    chk.ob("V5-inputs-not-written", vf, f"{v}:{q} leaves {sorted(final)} unchanged", not muts,
-                           (f"no store, in-place update or overwrite flag reaches an input array of the reference, directly, through a view or in "
+                    for hq, node, desc, reason in und_v:
+                        chk.ob("V5-inputs-not-written", node, f"{v}:{hq}: {src(node)[:70]}", None,
+                               f"a write may reach an input array the reference declares Final ({desc}) but this is not established: {reason}",
+                               file=v, func=hq)
+                    chk.ob("V5-inputs-not-written", vf, f"{v}:{q} leaves {sorted(final)} unchanged", (None if und_v else True) if not muts else False,
+                           (f"{len(und_v)} possible write(s) to an input array of the reference are not decided (listed separately)" if und_v else
+                            f"no store, in-place update or overwrite flag reaches an input array of the reference, directly, through a view or in "
                             f"the {len(seen_h) - 1} helper(s) it is handed to") if not muts else
                            f"{len(muts)} write(s) reach an input array the reference never writes (listed separately)",
                            file=v, func=q, nontrivial=False)
@@ -5494,6 +5511,234 @@ def periodic_indices(chk, rel, q, fn, ref_fn):
     return nviol
 
 
+_K2_PURE_CALLS = {"range", "len", "int", "float", "abs", "min", "max", "sqrt", "exp", "log", "sin", "cos", "tan", "tanh", "floor", "ceil",
+                  "fabs", "pow", "mod", "sign", "bool", "round", "enumerate", "zip"}
+
+
+def _free_scalar_params(fn, kind):
+    """parameters of fn annotated as a scalar of `kind` ('float' / 'int') that the function never binds again"""
+    stored = {n.id for n in ast.walk(fn) if isinstance(n, ast.Name) and isinstance(n.ctx, (ast.Store, ast.Del))}
+    stored |= {nm for n in ast.walk(fn) if isinstance(n, (ast.Global, ast.Nonlocal)) for nm in n.names}
+    out = set()
+    for a in list(fn.args.posonlyargs) + list(fn.args.args) + list(fn.args.kwonlyargs):
+        if a.annotation is None or a.arg in stored:
+            continue
+        t = a.annotation.value if isinstance(a.annotation, ast.Constant) and isinstance(a.annotation.value, str) else src(a.annotation)
+        t = t.replace("Final", "").strip(" []'\"")
+        if "[" in t or "(" in t:
+            continue
+        if t.strip() in ((kind, kind + "64", "f8", "real") if kind == "float" else (kind, kind + "64", kind + "32", "i4", "i8")):
+            out.add(a.arg)
+    return out
+
+
+def _own_breaks(lp):
+    """the `break`s that leave THIS loop -> [(break, [(test, polarity)])] with the tests of the `if`s between the loop body and the break
+    (polarity False: the break sits in the else branch); None when a break is reached through anything other than `if`s"""
+    out = []
+
+    def walk(block, guards):
+        for st in block:
+            if isinstance(st, ast.Break):
+                out.append((st, list(guards)))
+            elif isinstance(st, ast.If):
+                if walk(st.body, guards + [(st.test, True)]) is None or walk(st.orelse, guards + [(st.test, False)]) is None:
+                    return None
+            elif isinstance(st, (ast.For, ast.While)):
+                if any(isinstance(b_, ast.Break) for s_ in st.orelse for b_ in ast.walk(s_)):
+                    return None           # a break in the else clause of an inner loop leaves the outer one: not followed
+            elif isinstance(st, (ast.FunctionDef, ast.AsyncFunctionDef, ast.ClassDef)):
+                continue
+            elif any(isinstance(b_, ast.Break) for b_ in ast.walk(st)):
+                return None               # try / with / match around a break: not followed
+        return True
+    return out if walk(lp.body, []) is True else None
+
+
+def _threshold_tests(test, polarity, free):
+    """conjuncts of (test if polarity else not test) that compare a quantity with a bare free parameter p by an inequality
+    -> [(p, node of the comparison, 'small' / 'large')]: the conjunct is TRUE when p is small / large enough"""
+    if isinstance(test, ast.UnaryOp) and isinstance(test.op, ast.Not):
+        return _threshold_tests(test.operand, not polarity, free)
+    if isinstance(test, ast.BoolOp):
+        if (isinstance(test.op, ast.And) and polarity) or (isinstance(test.op, ast.Or) and not polarity):
+            return [t for v in test.values for t in _threshold_tests(v, polarity, free)]
+        return []
+    if not (isinstance(test, ast.Compare) and len(test.ops) == 1 and isinstance(test.ops[0], (ast.Lt, ast.LtE, ast.Gt, ast.GtE))):
+        return []
+    l, r = test.left, test.comparators[0]
+    less = isinstance(test.ops[0], (ast.Lt, ast.LtE))           # l < r
+    for p_side, other, p_is_left in ((l, r, True), (r, l, False)):
+        if isinstance(p_side, ast.Name) and p_side.id in free and not any(isinstance(n, ast.Name) and n.id == p_side.id for n in ast.walk(other)):
+            true_when_small = (less == p_is_left)               # p < E  or  E > p
+            if not polarity:
+                true_when_small = not true_when_small
+            return [(p_side.id, test, "small" if true_when_small else "large")]
+    return []
+
+
+def _dependants(fn, seed, skip=()):
+    """names whose value can depend on the name `seed` (data and control dependence, flow-insensitive over the whole function; a call that is
+    not a known pure scalar function may write every array it is handed).  `skip`: statements left out"""
+    def base(t):
+        while isinstance(t, (ast.Subscript, ast.Attribute, ast.Starred)):
+            t = t.value
+        return t.id if isinstance(t, ast.Name) else None
+    facts = []                 # (targets, reads)
+    skip_ids = {id(s) for s in skip}
+
+    def loads(e):
+        return {n.id for n in ast.walk(e) if isinstance(n, ast.Name)}
+
+    def visit(block, control):
+        for st in block:
+            if id(st) in skip_ids:
+                continue
+            if isinstance(st, (ast.FunctionDef, ast.AsyncFunctionDef, ast.ClassDef)):
+                facts.append(({st.name}, loads(st) | control))
+                continue
+            tg, rd = set(), set()
+            heads = []
+            if isinstance(st, ast.Assign):
+                heads = [st.value] + st.targets
+                for t in st.targets:
+                    for e in (t.elts if isinstance(t, (ast.Tuple, ast.List)) else [t]):
+                        tg.add(base(e))
+            elif isinstance(st, (ast.AugAssign, ast.AnnAssign)):
+                heads = [st.target] + ([st.value] if st.value is not None else [])
+                tg.add(base(st.target))
+            elif isinstance(st, (ast.For, ast.AsyncFor)):
+                heads = [st.iter, st.target]
+                for e in ast.walk(st.target):
+                    if isinstance(e, ast.Name):
+                        tg.add(e.id)
+            elif isinstance(st, (ast.If, ast.While)):
+                heads = [st.test]
+            elif isinstance(st, (ast.With, ast.AsyncWith)):
+                heads = [i.context_expr for i in st.items] + [i.optional_vars for i in st.items if i.optional_vars is not None]
+                for i in st.items:
+                    if i.optional_vars is not None:
+                        tg.add(base(i.optional_vars))
+            elif isinstance(st, ast.Try):
+                heads = []
+            else:
+                heads = [st]
+            for h in heads:
+                rd |= loads(h)
+                for c in ast.walk(h):
+                    if isinstance(c, ast.NamedExpr):
+                        tg.add(c.target.id)
+                    if isinstance(c, ast.Call):
+                        fname = c.func.id if isinstance(c.func, ast.Name) else c.func.attr if isinstance(c.func, ast.Attribute) else ""
+                        if isinstance(c.func, ast.Attribute):
+                            tg.add(base(c.func))            # a method may change its receiver
+                        if fname not in _K2_PURE_CALLS:
+                            for a in list(c.args) + [k.value for k in c.keywords]:
+                                tg.add(base(a))
+            tg.discard(None)
+            if tg:
+                facts.append((tg, rd | control))
+            inner = control | (loads(st.test) if isinstance(st, (ast.If, ast.While)) else loads(st.iter) if isinstance(st, (ast.For, ast.AsyncFor)) else set())
+            for fld in ("body", "orelse", "finalbody"):
+                if isinstance(getattr(st, fld, None), list):
+                    visit(getattr(st, fld), inner)
+            for h in getattr(st, "handlers", []) or []:
+                visit(h.body, inner)
+    visit(fn.body, set())
+    dep = {seed}
+    changed = True
+    while changed:
+        changed = False
+        for tg, rd in facts:
+            if rd & dep and not tg <= dep:
+                dep |= tg
+                changed = True
+    return dep
+
+
+def _exhaustion_reachable(fn, lp, counter):
+    """Can the range loop `lp` (which contains `break`) run to its end after at least one sweep?
+    -> (True, explanation) when established, (None, reason) otherwise.
+    Established when (1) the stop of the range is a bare integer parameter the function never binds (the caller chooses the number of sweeps)
+    or a positive literal; (2) every `break` of the loop sits under `if`s one of whose tests compares a quantity with a bare float parameter p
+    by an inequality; (3) nothing the loop reads depends on p except those tests (so the sequence of compared quantities is the same for
+    every p: a p beyond all of them makes every such test fail in every sweep); (4) no parameter is needed small by one test and large by
+    another; (5) the loop has no else clause that leaves the function or binds the counter."""
+    it = lp.iter
+    if not (isinstance(it, ast.Call) and src(it.func) == "range" and not it.keywords and 1 <= len(it.args) <= 2):
+        return None, "the loop is not over range(stop) / range(start, stop)"
+    stop = it.args[-1]
+    free_int = _free_scalar_params(fn, "int")
+    if isinstance(stop, ast.Name) and stop.id in free_int:
+        if len(it.args) == 2 and any(isinstance(n, ast.Name) and n.id == stop.id for n in ast.walk(it.args[0])):
+            return None, "start and stop of the range both depend on the same parameter"
+        sweeps = f"the number of sweeps `{stop.id}` is an argument of the kernel"
+    elif len(it.args) == 1 and isinstance(stop, ast.Constant) and isinstance(stop.value, int) and not isinstance(stop.value, bool) and stop.value >= 1:
+        sweeps = f"the loop makes {stop.value} sweep(s)"
+    else:
+        return None, f"whether `{src(it)[:40]}` makes at least one sweep is not decided (stop is neither an argument of the kernel nor a positive literal)"
+    for s_ in lp.orelse:
+        for n in ast.walk(s_):
+            if isinstance(n, (ast.Return, ast.Raise)) or (isinstance(n, ast.Name) and n.id == counter and isinstance(n.ctx, ast.Store)):
+                return None, "the else clause of the loop leaves the function or binds the counter"
+    brk = _own_breaks(lp)
+    if brk is None:
+        return None, "a `break` is reached through something other than `if` statements"
+    if not brk:
+        return None, "no `break` of this loop found"
+    free = _free_scalar_params(fn, "float")
+    chosen = {}
+    test_nodes = []
+    for b_, guards in brk:
+        cands = [t for g_, pol in guards for t in _threshold_tests(g_, pol, free)]
+        if not cands:
+            return None, (f"the `break` of line {b_.lineno} is not guarded by a comparison of a computed quantity with a float argument "
+                          "of the kernel: whether it can fail in every sweep is not decided")
+        p, node, sense = cands[0]
+        if chosen.setdefault(p, sense) != sense:
+            return None, f"`{p}` would have to be small for one `break` and large for another"
+        test_nodes.append(node)
+    # names killed at the entry of every sweep: `X = E` (E without X) at the top level of the body before any read of X
+    killed = set()
+    seen_reads = set()
+    for st in lp.body:
+        if isinstance(st, ast.Assign) and len(st.targets) == 1 and isinstance(st.targets[0], ast.Name) \
+                and st.targets[0].id not in seen_reads and not any(isinstance(n, ast.Name) and n.id == st.targets[0].id for n in ast.walk(st.value)):
+            seen_reads |= {n.id for n in ast.walk(st.value) if isinstance(n, ast.Name)}
+            killed.add(st.targets[0].id)
+            continue
+        seen_reads |= {n.id for n in ast.walk(st) if isinstance(n, ast.Name) and isinstance(n.ctx, ast.Load)}
+        seen_reads |= {n.target.id for n in ast.walk(st) if isinstance(n, ast.AugAssign) and isinstance(n.target, ast.Name)}
+    # a binding of a killed name in front of the loop (same block: the function body) that nothing reads before the loop does not reach it
+    skip = []
+    if lp in fn.body:
+        k = fn.body.index(lp)
+        for j, st in enumerate(fn.body[:k]):
+            if isinstance(st, ast.Assign) and len(st.targets) == 1 and isinstance(st.targets[0], ast.Name) and st.targets[0].id in killed:
+                x = st.targets[0].id
+                between = fn.body[j + 1:k] + [lp.iter]
+                if not any(isinstance(n, ast.Name) and n.id == x and isinstance(n.ctx, ast.Load) for s2 in between for n in ast.walk(s2)):
+                    skip.append(st)
+    inside_reads = {}
+    for n in ast.walk(lp):
+        if isinstance(n, ast.Name):
+            inside_reads.setdefault(n.id, []).append(n)
+    in_tests = {id(n) for t in test_nodes for n in ast.walk(t)}
+    for p in chosen:
+        dep = _dependants(fn, p, skip=skip)
+        for nm in dep:
+            for n in inside_reads.get(nm, []):
+                if nm == p and id(n) in in_tests:
+                    continue
+                if nm != p and isinstance(n.ctx, ast.Store) and nm in killed:
+                    continue
+                return None, (f"`{nm}` (line {n.lineno}) is used inside the loop and can depend on `{p}`: the quantities compared with `{p}` "
+                              "are not the same for every value of it")
+    ps = ", ".join(f"`{p}` {'large' if s == 'small' else 'small'} enough" for p, s in sorted(chosen.items()))
+    return True, (f"{sweeps} and every `break` waits for a comparison with {', '.join('`' + p + '`' for p in sorted(chosen))}, on which nothing "
+                  f"else in the loop depends: with {ps} (and the compared quantities being numbers) no `break` is taken and the loop runs to its end")
+
+
 def index_wrap(chk):
     """K1: compiled code does not wrap negative indices; K2: loop counters after their loop"""
     files = list(U.KERNELS) + [v for vs in U.VARIANTS.values() for v in vs]
@@ -5538,11 +5783,33 @@ def index_wrap(chk):
                                 st_ = parent(st_)
                             if has_break:
                                 # left through `break` the counter has the same value in both; run to its end it has not
+                                try:
+                                    reach, how = _exhaustion_reachable(fn, lp, nm)
+                                except Exception as e:
+                                    reach, how = None, f"analysis of the breaks failed ({type(e).__name__}: {e})"
+                                if reach is True and rel in U.KERNELS:
+                                    # AUDIT (K2, loop with break): true when the loop can run to its end after at least one sweep
+                                    # (ASSUMPTION checked by `_exhaustion_reachable`: stop chosen by the caller or a positive literal; every
+                                    # break waits for an inequality against a float argument on which nothing else in the loop depends) and
+                                    # the name is not bound again before this read; pyccel's do-loop then leaves the first value not taken.
+                                    # Only for the pyccel sources: numba / pythran compile Python's own loop semantics (copies: undecided below)
+                                    n2[0] += 1
+                                    chk.ob("K2-loop-variable-after-loop", st_,
+                                           f"`{nm}` read in `{src(st_)[:60]}` after `for {src(lp.target)} in {src(lp.iter)[:40]}` (loop with break)", False,
+                                           f"the loop can run to its end without `break`: {how}.  Python then leaves `{nm}` at the last value it "
+                                           f"took (stop - 1), the do-loop generated by pyccel at the first value it did not take (stop): "
+                                           f"`{src(st_)[:60]}` gives a result one higher in the compiled kernel than in the interpreted one "
+                                           "(when the loop is left through `break` the two agree)", file=rel, func=q)
+                                    break
+                                extra_ = ("" if reach is not True else "; this file is a numba / pythran copy, whose compilers are not known here to "
+                                          "change the final value of a counter (the pyccel source is judged on its own)")
+                                if reach is None:
+                                    extra_ = f" ({how})"
                                 chk.ob("K2-loop-variable-after-loop", st_,
                                        f"`{nm}` read in `{src(st_)[:60]}` after `for {src(lp.target)} in {src(lp.iter)[:40]}` (loop with break)", None,
                                        f"the loop can be left through `break` (then `{nm}` has the same value in interpreted and compiled code) "
                                        f"or run to its end (then Python leaves `{nm}` at the last value it took, the compiled Fortran/C loop at "
-                                       "the first value it did not take): whether the loop always ends through `break` is not decided",
+                                       "the first value it did not take): whether the loop always ends through `break` is not decided" + extra_,
                                        file=rel, func=q)
                                 break
                             # AUDIT (K2): true when the loop is a range / enumerate loop without `break`, the name is not bound again
